@@ -28,6 +28,19 @@ RULES = {
         replace='crate::hoist::chain_digest(&self.digest, val)',
         why='Iterator::chain / vec::IntoIter have no vstd model',
         assumes='yields the sequence [digest + 1] ++ val'),
+    # ---- commitment/table/decommit.rs
+    'H_into_iter_map_collect': dict(
+        kind='H',
+        pattern='decommitment.values.into_iter().map($F).collect()',
+        replace='crate::hoist::vec_map(decommitment.values, $F)',
+        why='vec::IntoIter / Map / collect have no vstd model',
+        assumes='Vec::into_iter().map(f).collect::<Vec<_>>() applies f to every element in order (stated through the closure\'s own requires/ensures; the closure body itself IS verified)'),
+    'H_extend_flat_map_be_bytes': dict(
+        kind='H',
+        pattern='data.extend_x(slice.iter().flat_map(|x| x.to_bytes_be().to_vec()))',
+        replace='crate::hoist::extend_be_bytes(&mut data, slice)',
+        why='FlatMap has no vstd model',
+        assumes='appends the 32-byte big-endian encodings of the slice elements, in order'),
     # ---- stark/queries.rs
     'R2_generate_queries': dict(
         kind='R2',
